@@ -21,7 +21,8 @@ A_RULES = [
     (r'for \(auto& member : patch\.object_range\(\)\)\s*\{', 'for (size_t vx_i = 0; vx_i < vx_n; ++vx_i) { vx_cur = vx_i;', 1),
     (r'auto it = target\.find\(member\.key\(\)\);\s*if \(it != target\.object_range\(\)\.end\(\)\)', 'if (vx_found[vx_i])', 1),
     (r'Json item = \(\*it\)\.value\(\);', 'bool vx_item_existing = true;', 1), (r'target\.erase\(it\);', 'vx_erase();', 0, 2), (r'member\.value\(\)\.is_null\(\)', 'vx_null[vx_i]', 0, 3),
-    (r'target\.try_emplace\(member\.key\(\), apply_merge_patch_\(item, member\.value\(\)\)\);', 'vx_emplace_merged(vx_item_existing);', 2),
+    (r'target\.try_emplace\(member\.key\(\), apply_merge_patch_\(item, member\.value\(\)\)\);', 'vx_emplace_merged(vx_item_existing);', 1, 3),
+    (r'\bitem\.is_object\(\)', 'nondet_bool()', 0, 2), (r'target\.try_emplace\(member\.key\(\), member\.value\(\)\);', 'vx_emplace_asis();', 0, 2),
     (r'Json item\(json_object_arg\);', 'bool vx_item_existing = false;', 1), (r'return target;', 'vx_returned_target = true; return;', 1), (r'return patch;', 'vx_returned_patch = true; return;', 1),
 ]
 # from_diff: for each member of source: absent in target -> null; present and different -> nested diff; present and equal -> nothing.  For each member of target: absent in source -> copied.
